@@ -16,6 +16,7 @@ Lexemes == {
   <<"p","r","o","c">>, <<"r","e","f">>, <<"t","y","p","e">>, <<"v","a","r">>,
   <<"x">>, <<"_">>, <<"i","f","x">>, <<"I","f">>, <<"a","_","1">>, <<"m","a","i","n">>, <<"Z","9","_">>,
   <<"0">>, <<"0","0","7">>, <<"1","2","3","4","5","6","7","8","9">>, <<"4","2">>,
+  <<"0","x","0","0","0","0","0","0","0","1","0">>, <<"0","0","0","0","0","0","0","0","0","0","0","1","6">>, <<"0","x","0","0","0","0","0","0","0","0","0","0","f","f">>,
   <<"0","x","0">>, <<"0","x","f","F">>, <<"0","x","7","f","f","f","f","f","f">>, <<"0","x","1","A">>,
   <<"'","a","'">>, <<"'","\\","n","'">>, <<"'","'","'">>, <<"'","\\","'">>, <<"'","U2","'">>, <<"'"," ","'">>, <<"'","U4","'">>,
   <<"/","/","\n">>, <<"/","/"," ","x"," ","\n">>, <<"/","/","U3","'","/","/","\n">>, <<"/","/","0","x","\r","\n">>
